@@ -29,6 +29,7 @@ const (
 	brkAddBad       = 14 // atomic.AddUint64(&counter.slowCount / errorCount, 1)
 	brkAddTotal     = 15 // atomic.AddUint64(&counter.totalCount, 1)
 	brkHookExit     = 16 // entry.WhenExit(rollback hook)
+	brkOnComplete   = 17 // cb.OnRequestComplete(rt, err)                   args: rt, identity of err
 )
 
 func init() {
@@ -92,6 +93,16 @@ func init() {
 		sumStep("slowRtCircuitBreaker", "cb_slow_sum_step", "slowRequestCounter", "slowCount"),
 		sumStep("errorRatioCircuitBreaker", "cb_errRatio_sum_step", "errorCounter", "errorCount"),
 		sumStep("errorCountCircuitBreaker", "cb_errCount_sum_step", "errorCounter", "errorCount"),
+		// MetricStatSlot.OnCompleted: one iteration of the loop over the resource's breakers reports the
+		// completion exactly once, with the entry's rt and error; nothing else of the entry (batch
+		// count, traffic / resource type, args, attachments) is read
+		target{Dir: "core/circuitbreaker", Func: "MetricStatSlot.OnCompleted", Name: "cb_statSlot_step", LoopBody: 1,
+			RangeVars: map[string]string{"cb": "CircuitBreaker"},
+			Hints: map[string]hint{
+				"ctx.Resource.Name()": {"", "opaque"},
+				"ctx.Err()":           {"", "opaque"},
+				"ctx.Rt()":            {"entry_rt", "uint64"}},
+			Acts: map[string]act{"cb.OnRequestComplete": {Tag: brkOnComplete, Keep: []int{0, 1}}}},
 		// retryTimeoutArrived: now >= deadline (both uint64)
 		target{Dir: "core/circuitbreaker", Func: "circuitBreakerBase.retryTimeoutArrived", Name: "cb_retryTimeoutArrived",
 			Hints: map[string]hint{
